@@ -240,20 +240,23 @@ def XDrawOK (frm : Ind) (d : XDraw) : Prop :=
   d.cut1 < frm.rows - 1 ∧ d.cut1 + 1 ≤ d.cut2 ∧ d.cut2 < frm.rows ∧
   d.pick < (exons frm).length
 
+/-- the gene crossover leaves at (i, c): `switch (from.active_crossover_type_)` -/
+def xoverGene (frm to : Ind) (d : XDraw) (i c : Nat) : Gene :=
+  if frm.xover = 0 then
+    (if onePointCut frm.rows d.cut ≤ i then frm.gene i c else to.gene i c)
+  else if frm.xover = 1 then
+    (if d.cut1 ≤ i ∧ i < d.cut2 then frm.gene i c else to.gene i c)
+  else if frm.xover = 3 then
+    (if d.mask i c then frm.gene i c else to.gene i c)
+  else
+    (if Locus.mk i c ∈ reach frm ((exons frm).getD d.pick frm.best) then frm.gene i c
+     else to.gene i c)
+
 /-- `crossover(const i_mep &lhs, const i_mep &rhs)` -/
 def crossover (lhs rhs : Ind) (d : XDraw) : Ind :=
   let frm := if d.b then rhs else lhs
   let to := if d.b then lhs else rhs
-  let g : Nat → Nat → Gene :=
-    match frm.xover with
-    | 0 => fun i c => if onePointCut frm.rows d.cut ≤ i then frm.gene i c else to.gene i c
-    | 1 => fun i c => if d.cut1 ≤ i ∧ i < d.cut2 then frm.gene i c else to.gene i c
-    | 3 => fun i c => if d.mask i c then frm.gene i c else to.gene i c
-    | _ =>
-      let start := (exons frm).getD d.pick frm.best
-      let copied := reach frm start
-      fun i c => if Locus.mk i c ∈ copied then frm.gene i c else to.gene i c
-  { to with gene := g, xover := frm.xover, age := max to.age frm.age }
+  { to with gene := xoverGene frm to d, xover := frm.xover, age := max to.age frm.age }
 
 /-- `i_mep::get_block(l)` -/
 def getBlock (x : Ind) (l : Locus) : Ind := { x with best := l }
@@ -361,14 +364,13 @@ instance (frm to post) : Decidable (Uniform frm to post) := by unfold Uniform; i
 instance (frm to post) : Decidable (TreeX frm to post) := by unfold TreeX; infer_instance
 
 def Flavour (k : Nat) (frm to post : Ind) : Prop :=
-  match k with
-  | 0 => OnePoint frm to post
-  | 1 => TwoPoints frm to post
-  | 3 => Uniform frm to post
-  | _ => TreeX frm to post
+  if k = 0 then OnePoint frm to post
+  else if k = 1 then TwoPoints frm to post
+  else if k = 3 then Uniform frm to post
+  else TreeX frm to post
 
 instance (k frm to post) : Decidable (Flavour k frm to post) := by
-  unfold Flavour; split <;> infer_instance
+  unfold Flavour; infer_instance
 
 /-- crossover with `frm`/`to` already chosen -/
 def CrossDir (frm to post : Ind) : Prop :=
